@@ -14,20 +14,19 @@ Arguments N.ltb : simpl never. Arguments N.leb : simpl never. Arguments N.eqb : 
 Definition returns {A} (r:fsys * res A) : Prop :=
   match snd r with Ok _ => True | Err _ => True | Panic => False | OutOfFuel => False end.
 
-Section Total.
-Variables (fs:fsys) (sr:series) (p:nat) (hdr ihdr:list byte) (l:list line).
-Hypothesis R : RepH fs sr p hdr ihdr l.
-Notation L := (p + 2).
-
 Lemma last_snoc_split' (m:list line) : m <> [] -> exists l' x, m = l' ++ [x].
 Proof. intros H. destruct (exists_last H) as (l' & x & E). eauto. Qed.
 
-(* ByteSeries::last_line: the last appended line, or NoData for an empty series *)
-Theorem last_line_ok :
-  series_last_line sr fs = (fs, match last_opt l with Some x => Ok x | None => Err ENoData end).
+Section LastLine.
+Variable p : nat.
+Notation L := (p + 2).
+(* the last-line read of Data::last_line / Data::open_existing *)
+Lemma last_line_of_ok fs fo cb ix hdr (l:list line) :
+  file_is fs fo hdr (encode p l) -> wf_series p l -> ix_last ix = full_after p None l ->
+  last_line_of ix (len (encode p l)) p fo cb fs = (fs, match last_opt l with Some x => Ok x | None => Err ENoData end).
 Proof.
-  destruct R as [RD W _ _]. unfold series_last_line, last_line_of.
-  rewrite (rd_ix_last _ _ _ _ _ _ _ _ RD), (rd_p _ _ _ _ _ _ _ _ RD), (rd_len _ _ _ _ _ _ _ _ RD).
+  intros FI W IXL.
+  unfold last_line_of. rewrite IXL.
   destruct l as [|x0 t0] eqn:El; [reflexivity|]. rewrite <- El in *.
   destruct (last_snoc_split' l ltac:(rewrite El; discriminate)) as (l' & x & E).
   assert (LO : last_opt l = Some x) by (rewrite E; apply last_opt_snoc).
@@ -70,12 +69,12 @@ Proof.
   assert (RL : length region = length (encode p l' ++ pre) + L).
   { rewrite EN, TB1, app_assoc, app_length, EL. reflexivity. }
   replace (len region <? line_size p)%N with false by (symmetry; apply N.ltb_ge; unfold len, line_size; lia).
-  assert (FR : fwim_read (d_file (s_data sr)) p (s_cb sr) (len region - line_size p) (len region) f fs = (fs, Ok [x])).
+  assert (FR : fwim_read fo p cb (len region - line_size p) (len region) f fs = (fs, Ok [x])).
   { unfold fwim_read.
-    erewrite mbind_ok by (apply (of_read_from_0 _ _ hdr region); exact (rd_file _ _ _ _ _ _ _ _ RD)).
+    erewrite mbind_ok by (apply (of_read_from_0 _ _ hdr region); exact FI).
     replace (len region - line_size p)%N with (N.of_nat (length region - L)) by (unfold len, line_size; lia).
     unfold len at 1.
-    rewrite (rwp_range p _ proc_read (s_cb sr) region (length region - L) (length region) f [x] (0%N, [])).
+    rewrite (rwp_range p _ proc_read cb region (length region - L) (length region) f [x] (0%N, [])).
     - cbn [feed]. replace (fst x <? U64)%N with true by (symmetry; apply N.ltb_lt; exact Hx).
       unfold proc_read. replace ((0 <? fst x) || (fst x =? 0))%N with true by (symmetry; lia).
       unfold ret, frev. cbn [rev_append]. destruct x; reflexivity.
@@ -89,6 +88,24 @@ Proof.
       replace (fst x - f <=? MAXD)%N with true by (symmetry; apply N.leb_le; exact Hd). cbn [fst]. rewrite app_nil_r. reflexivity.
     - cbn [ok_from]. repeat split; try assumption. }
   erewrite mbind_ok by exact FR. reflexivity.
+Qed.
+
+End LastLine.
+
+Section Total.
+Variables (fs:fsys) (sr:series) (p:nat) (hdr ihdr:list byte) (l:list line).
+Hypothesis R : RepH fs sr p hdr ihdr l.
+Notation L := (p + 2).
+
+
+
+(* ByteSeries::last_line: the last appended line, or NoData for an empty series *)
+Theorem last_line_ok :
+  series_last_line sr fs = (fs, match last_opt l with Some x => Ok x | None => Err ENoData end).
+Proof.
+  destruct R as [RD W _ _]. unfold series_last_line.
+  rewrite (rd_p _ _ _ _ _ _ _ _ RD), (rd_len _ _ _ _ _ _ _ _ RD).
+  apply (last_line_of_ok p fs _ _ _ hdr l (rd_file _ _ _ _ _ _ _ _ RD) W (rd_ix_last _ _ _ _ _ _ _ _ RD)).
 Qed.
 
 (* ---- C19: no panic, no exhausted loop bound, for every argument ---- *)
